@@ -5,6 +5,8 @@ driver runs).  Only property theorems and non-vacuity examples live here.
 -/
 import MxlVerif.Lemmas.C05Int
 import MxlVerif.Lemmas.C05Raw
+import MxlVerif.Lemmas.C05Py
+import MxlVerif.Lemmas.C16Bridge
 import MxlVerif.Generated.C05Facts
 namespace Mxl.C05
 
@@ -491,6 +493,89 @@ example :
   have h : ((pyTrunc (5/2) : Int) : Rat) ≠ 5/2 := by decide +kernel
   refine ⟨by rfl, ?_, by rfl⟩
   simp [intCoefs, h, bind, Except.bind]
+
+/-- **position queries with integer arguments** (what the driver runs): an unknown compound is a
+    `KeyError` first; `get_isotopomers_of_at_position` assigns `label_positions[position]`, so a
+    position in `-n ≤ p < n` is read from the front (`C05_index_rule`) and then the query is the
+    natural-number one of `C05_query_at_position`, any other position is an `IndexError`;
+    `get_isotopomers_of_with_n_labels` raises `ValueError` for a negative count, is the
+    natural-number query otherwise and returns no name when more labels are asked for than the
+    compound has positions -/
+theorem C05_query_integer_arguments (lv : List (Name × Nat)) (x : Name) :
+    (lv.lookup x = none → ∀ ps k, isotopomersAtPositionI lv x ps = .error (.keyError x) ∧
+      isotopomersWithNLabelsI lv x k = .error (.keyError x)) ∧
+    (∀ n, lv.lookup x = some n →
+      (∀ ps, isotopomersAtPositionI lv x ps = (normMap n ps).bind (isotopomersAtPosition lv x)) ∧
+      (∀ ps e, normMap n ps = .error e → e = .indexError) ∧
+      (∀ k : Int, (k < 0 → isotopomersWithNLabelsI lv x k = .error .valueError) ∧
+        (0 ≤ k → isotopomersWithNLabelsI lv x k = isotopomersWithNLabels lv x k.toNat) ∧
+        ((n : Int) < k → isotopomersWithNLabelsI lv x k = .ok []))) := by
+  refine ⟨fun h ps k => ⟨atPositionI_unknown lv x ps h, (withNLabelsI_spec lv x k).1 h⟩, ?_⟩
+  intro n h
+  refine ⟨fun ps => atPositionI_known lv x ps n h, ?_, fun k => (withNLabelsI_spec lv x k).2 n h⟩
+  intro ps e he
+  obtain ⟨i, _, hi⟩ := mapM_error_exists _ _ _ he
+  exact pyIndex_error hi
+
+/-- non-vacuity: position `-1` of a compound with 3 positions is position 2; `-4` raises -/
+example :
+    isotopomersAtPositionI [("A", 3)] "A" [-1] = isotopomersAtPosition [("A", 3)] "A" [2] ∧
+    isotopomersAtPositionI [("A", 3)] "A" [-4] = .error .indexError := ⟨rfl, rfl⟩
+
+/-- **`initial_labels` is never rejected**: the suffix is built from `idx in label_pos` for
+    `idx = 0..n-1`, so negative positions and positions `≥ n` match nothing (they are silently
+    ignored, an all-ignored request leaves the amount on the unlabelled isotopomer); the dict is read
+    with `.get(k)` per labelled base variable, so entries for unknown or unlabelled compounds are
+    never read.  (`buildModelPy` is `buildModelP` on the positions that can match.) -/
+theorem C05_initial_labels_read (lv : List (Name × Nat)) (n : Nat) :
+    (∀ pos : List Int, initSuffixI n pos = initSuffix n (natPositions pos)) ∧
+    (∀ pos : List Nat, initSuffix n pos = initSuffix n (pos.filter (· < n))) ∧
+    (∀ (il il' : List (Name × List Nat)) (vars : List (Name × Rat)),
+      (∀ kv ∈ vars, (lv.lookup kv.1).isSome → il.lookup kv.1 = il'.lookup kv.1) →
+      buildVars lv il vars = buildVars lv il' vars) ∧
+    (∀ b maps raw (il : List (Name × List Int)),
+      buildModelPy b lv maps raw il = buildModelP b lv maps raw (il.map fun kp => (kp.1, natPositions kp.2))) :=
+  ⟨initSuffixI_eq n, initSuffix_filter n, buildVars_congr lv, fun _ _ _ _ => rfl⟩
+
+/-- **a reaction without a label map** is handed to `add_reaction` under its own name with its own
+    function, its labelled arguments reading the totals, and its stoichiometry untouched — fractional
+    and `Derived` coefficients included, no compound renamed (`unmappedRaw`; with integer coefficients
+    this is `unmappedRxn`).  Hence a compound with label positions that such a reaction changes
+    (`danglingOf`) is named by the labelled model's stoichiometry but is none of its variables: the
+    labelled model builds and then raises `KeyError` when it is evaluated (observation F-C05-4) -/
+theorem C05_unmapped_passthrough (lv : List (Name × Nat)) (r : BRxn) :
+    (unmappedRaw lv r.name r.args (r.stoich.map fun kv => (kv.1, Coef.int kv.2))).args = (unmappedRxn lv r).args ∧
+    (unmappedRaw lv r.name r.args (r.stoich.map fun kv => (kv.1, Coef.int kv.2))).stoich.map (·.1)
+      = r.stoich.map (·.1) ∧
+    (∀ st c, c ∈ danglingOf lv st ↔ c ∈ st.map (·.1) ∧ labelsOf lv c > 0) ∧
+    (∀ il vars c, labelsOf lv c > 0 → plain c ∉ (buildVars lv il vars).map (·.1)) := by
+  refine ⟨rfl, ?_, mem_danglingOf lv, fun il vars c hc => plain_not_var lv il vars c hc⟩
+  simp [unmappedRaw, List.map_map, Function.comp_def]
+
+/-- **what the driver runs is the model the theorems are about**: for integer maps whose indices lie
+    inside their reaction's positions (`nmaps` = the maps counted from the front), no raw
+    coefficients and natural-number initial positions, the driver's entry point `buildModelPy` is
+    `buildModel` — so `C05_model_dynamics`, `C05_query_isotopomers_are_totals` and C16's model-level
+    theorems speak about the model the correspondence compares with the real `build_model` -/
+theorem C05_model_integer_maps {b : Base} {lv : List (Name × Nat)} {maps : List (Name × List Int)}
+    {nmaps : List (Name × List Nat)} {il : List (Name × List Nat)}
+    (h0 : ∀ r ∈ b.rxns, maps.lookup r.name = none → nmaps.lookup r.name = none)
+    (hn : ∀ r ∈ b.rxns, ∀ lm, maps.lookup r.name = some lm →
+      ∃ lm', normMap (max (nSub lv r) (nProd lv r)) lm = .ok lm' ∧ nmaps.lookup r.name = some lm') :
+    buildModelPy b lv maps [] (il.map fun kp => (kp.1, kp.2.map Int.ofNat)) = buildModel b lv nmaps il := by
+  have hpos : ∀ l : List Nat, natPositions (l.map Int.ofNat) = l := by
+    intro l
+    induction l with
+    | nil => rfl
+    | cons a l ih => simp [natPositions] at ih ⊢; exact ih
+  unfold buildModelPy
+  rw [buildModelP_nil, ← buildModelI_eq_nat b lv maps nmaps il h0 hn]
+  congr 1
+  rw [List.map_map]
+  conv => rhs; rw [← List.map_id il]
+  apply List.map_congr_left
+  intro kp _
+  simp [hpos]
 
 /-- the facts regenerated from the current `label_map.py` by `translate/c05.py` are the ones the
     model is written for: every mirrored function has its modelled statement shape (no decorator,
